@@ -178,6 +178,7 @@ std::string CfgSpec::render(Rng &r, bool plain) const {
         if (!plain && r.chance(1, 10)) s += "\n";
         std::string sep = plain ? " = " : (r.chance(1, 5) ? ":" : r.chance(1, 3) ? "=" : " = ");
         if (sep == ":" && p.second.empty()) sep = " = ";
+        if (!p.second.empty() && p.second[0] == ';') sep = "=";   // " ;" would start an inline comment
         s += p.first + sep + quote_if_needed(r, p.second, plain) + "\n";
     }
     if (!plain && r.chance(1, 6)) s += "[other]\nmessage_format = not-this-one\noutput = stderr\n";
